@@ -36,3 +36,171 @@ theorem num_lt (bs : Bytes) : num bs < 4294967296 := by
   · omega
 
 end CkbVerif.Molecule
+
+namespace CkbVerif.Molecule
+
+/-! ### readNums -/
+
+theorem readNums_length (k : Nat) (bs : Bytes) : (readNums k bs).length = k := by
+  induction k generalizing bs with
+  | zero => simp [readNums]
+  | succ k ih => simp [readNums, ih]
+
+theorem drop4_le32 (n : Nat) (rest : Bytes) : (le32 n ++ rest).drop 4 = rest := by
+  simp [le32]
+
+theorem readNums_flatMap (ns : List Nat) (rest : Bytes) (h : ∀ n ∈ ns, n < 4294967296) :
+    readNums ns.length (ns.flatMap le32 ++ rest) = ns := by
+  induction ns with
+  | nil => simp [readNums]
+  | cons n ns ih =>
+    have hn : n < 4294967296 := h n (by simp)
+    have hns : ∀ m ∈ ns, m < 4294967296 := fun m hm => h m (by simp [hm])
+    simp only [List.flatMap_cons, List.length_cons, readNums, List.append_assoc]
+    rw [num_le32 _ _ hn, drop4_le32, ih hns]
+
+theorem flatMap_readNums (k : Nat) (bs : Bytes) (h : 4 * k ≤ bs.length) :
+    (readNums k bs).flatMap le32 = bs.take (4 * k) := by
+  induction k generalizing bs with
+  | zero => simp [readNums]
+  | succ k ih =>
+    match bs, h with
+    | a :: b :: c :: d :: rest, h =>
+      simp only [readNums, List.flatMap_cons]
+      rw [le32_num]
+      have h' : 4 * k ≤ rest.length := by simp at h; omega
+      have : List.drop 4 (a :: b :: c :: d :: rest) = rest := by simp
+      rw [this, ih rest h']
+      have e : 4 * (k + 1) = (4 * k) + 1 + 1 + 1 + 1 := by omega
+      rw [e]
+      simp [List.take]
+    | [], h => simp at h
+    | [_], h => simp at h; omega
+    | [_, _], h => simp at h; omega
+    | [_, _, _], h => simp at h; omega
+
+/-! ### chunk -/
+
+theorem chunk_length (sz k : Nat) (bs : Bytes) : (chunk sz k bs).length = k := by
+  induction k generalizing bs with
+  | zero => simp [chunk]
+  | succ k ih => simp [chunk, ih]
+
+theorem chunk_flatten (sz : Nat) (xs : List Bytes) (rest : Bytes) (h : ∀ x ∈ xs, x.length = sz) :
+    chunk sz xs.length (xs.flatten ++ rest) = xs := by
+  induction xs with
+  | nil => simp [chunk]
+  | cons x xs ih =>
+    have hx : x.length = sz := h x (by simp)
+    have hxs : ∀ y ∈ xs, y.length = sz := fun y hy => h y (by simp [hy])
+    simp only [List.flatten_cons, List.length_cons, chunk, List.append_assoc]
+    rw [← hx]
+    simp only [List.take_left', List.drop_left']
+    rw [hx, ih hxs]
+
+theorem flatten_chunk (sz k : Nat) (bs : Bytes) (h : bs.length = sz * k) : (chunk sz k bs).flatten = bs := by
+  induction k generalizing bs with
+  | zero =>
+    simp at h
+    simp [chunk, h]
+  | succ k ih =>
+    simp only [chunk, List.flatten_cons]
+    have : (bs.drop sz).length = sz * k := by
+      simp [List.length_drop, h, Nat.mul_succ]
+    rw [ih _ this, List.take_append_drop]
+
+theorem chunk_each_length (sz k : Nat) (bs : Bytes) (h : sz * k ≤ bs.length) :
+    ∀ x ∈ chunk sz k bs, x.length = sz := by
+  induction k generalizing bs with
+  | zero => simp [chunk]
+  | succ k ih =>
+    intro x hx
+    simp only [chunk, List.mem_cons] at hx
+    have hk : sz * (k + 1) = sz * k + sz := by rw [Nat.mul_succ]
+    cases hx with
+    | inl e =>
+      subst e
+      simp [List.length_take]
+      omega
+    | inr hm =>
+      apply ih (bs.drop sz) _ x hm
+      simp [List.length_drop]
+      omega
+
+/-! ### mapOpt -/
+
+theorem mapOpt_map {α β : Type} (f : α → Option β) (g : β → α) (xs : List β)
+    (h : ∀ x ∈ xs, f (g x) = some x) : mapOpt f (xs.map g) = some xs := by
+  induction xs with
+  | nil => simp [mapOpt]
+  | cons x xs ih =>
+    have hx := h x (by simp)
+    have hxs : ∀ y ∈ xs, f (g y) = some y := fun y hy => h y (by simp [hy])
+    simp [mapOpt, hx, ih hxs]
+
+theorem mapOpt_some_map {α β : Type} (f : α → Option β) (g : β → α) (xs : List α) (ys : List β)
+    (h : ∀ x ∈ xs, ∀ y, f x = some y → g y = x) (hm : mapOpt f xs = some ys) : ys.map g = xs := by
+  induction xs generalizing ys with
+  | nil =>
+    simp [mapOpt] at hm
+    simp [← hm]
+  | cons x xs ih =>
+    simp only [mapOpt] at hm
+    split at hm
+    · simp at hm
+    · rename_i y hy
+      split at hm
+      · simp at hm
+      · rename_i ys' hys
+        simp at hm
+        subst hm
+        simp [h x (by simp) y hy, ih ys' (fun z hz => h z (by simp [hz])) hys]
+
+theorem mapOpt_length {α β : Type} (f : α → Option β) (xs : List α) (ys : List β)
+    (hm : mapOpt f xs = some ys) : ys.length = xs.length := by
+  induction xs generalizing ys with
+  | nil =>
+    simp [mapOpt] at hm
+    simp [← hm]
+  | cons x xs ih =>
+    simp only [mapOpt] at hm
+    split at hm
+    · simp at hm
+    · split at hm
+      · simp at hm
+      · rename_i ys' hys
+        simp at hm
+        subst hm
+        simp [ih ys' hys]
+
+theorem mapOpt_mono {α β : Type} (f f' : α → Option β) (xs : List α) (ys : List β)
+    (h : ∀ x ∈ xs, ∀ y, f x = some y → f' x = some y) (hm : mapOpt f xs = some ys) :
+    mapOpt f' xs = some ys := by
+  induction xs generalizing ys with
+  | nil => simpa [mapOpt] using hm
+  | cons x xs ih =>
+    simp only [mapOpt] at hm
+    split at hm
+    · simp at hm
+    · rename_i y hy
+      split at hm
+      · simp at hm
+      · rename_i ys' hys
+        simp at hm
+        subst hm
+        simp [mapOpt, h x (by simp) y hy, ih ys' (fun z hz => h z (by simp [hz])) hys]
+
+theorem mapOpt_isSome {α β : Type} (f : α → Option β) (xs : List α) :
+    (mapOpt f xs).isSome = xs.all (fun x => (f x).isSome) := by
+  induction xs with
+  | nil => simp [mapOpt]
+  | cons x xs ih =>
+    simp only [mapOpt, List.all_cons]
+    cases hx : f x with
+    | none => simp
+    | some y =>
+      cases hxs : mapOpt f xs with
+      | none => simp [hxs] at ih; simpa using ih
+      | some ys => simp [hxs] at ih; simpa using ih
+
+end CkbVerif.Molecule
